@@ -192,3 +192,29 @@ mod testing {
 	}
 }
 
+
+#[cfg(feature = "verif")]
+pub mod verif {
+	//! Verification hooks (feature `verif`): forwarding wrappers only.
+	use anyhow::Result;
+	use java_string::JavaString;
+	use duke::tree::class::{ObjClassName, ObjClassNameSlice};
+
+	/// `NestTypeA::new` as `(kind, first, second)`: kind 0 = anonymous(first), 1 = inner(first), 2 = local(first = digits, second = name).
+	pub fn nest_type_a(inner_name: &ObjClassNameSlice) -> (u8, &ObjClassNameSlice, Option<&ObjClassNameSlice>) {
+		match super::NestTypeA::new(inner_name) {
+			super::NestTypeA::Anonymous(a) => (0, a, None),
+			super::NestTypeA::Inner(a) => (1, a, None),
+			super::NestTypeA::Local(a, b) => (2, a, Some(b)),
+		}
+	}
+	pub fn inner_name(nest_class_name: &ObjClassNameSlice, nest_inner_name: &ObjClassNameSlice, mapped_name: &ObjClassNameSlice) -> Result<ObjClassName> {
+		super::inner_name(nest_class_name, nest_inner_name, mapped_name)
+	}
+	pub fn rsplit_underscore(name: &ObjClassNameSlice) -> Result<Option<(&ObjClassNameSlice, &ObjClassNameSlice)>> {
+		super::rsplit_underscore(name)
+	}
+	pub fn construct_inner_name_from_anonymous_number(number: JavaString) -> Result<ObjClassName> {
+		super::construct_inner_name_from_anonymous_number(number)
+	}
+}
